@@ -2036,7 +2036,8 @@ PROPS = {
                      'HabuVerif/Props/C15Sign.lean': ['HabuVerif.C15Sign.' + t for t in [
             'sign_closed_2021', 'sign_closed_2022', 'sign_closed_2023', 'sign_closed_sum_2021', 'sign_closed_sum_2022',
             'sign_closed_sum_2023', 'names_2021', 'names_2022', 'names_2023', 'closed_set_line']] + [
-            'HabuVerif.Sign.absBody_sound', 'HabuVerif.Sign.nnLineWith_sound_partial', 'HabuVerif.Sign.nnLine_sound_partial']},
+            'HabuVerif.Sign.absBody_sound', 'HabuVerif.Sign.nnLineWith_sound_partial', 'HabuVerif.Sign.nnLine_sound_partial',
+            'HabuVerif.Sign.nnLine_sound_partial2', 'HabuVerif.Sign.opFacts_of']},
         assumptions=['proved for the federal balance lines (1040 lines 34, 35a, 36, 37) in exact cents (amounts up to 1e13 cents) and for the NC D-400 balance lines (19, 23, 25, 26a, 27, 28, 33, 34, refund) in exact whole dollars (up to 1e13 dollars)',
                      'sign half: a verified-in-part sign analysis (Spec/Sign.lean): per year the greatest set of float/int lines closed under "not negative given not-negative inputs and not-negative lines of the set" is regenerated and its closedness re-checked by the kernel (about 390 of 540-570 lines without trusting sum(), about 435 with); lines of the reviewed baseline that drop out are broken obligations. PARTIAL: the soundness theorem of the analysis (absBody_sound, nnLine_sound_partial) is relative to stated facts about the Python operators on values (OpFacts, WrapFact: the binary64 core of each is proved in Proofs/SignLemmas.lean) and the lift from line evaluations to solver states is not proved; lines outside the sets (plain and conditional subtractions, tax-table lookups) are checked on explored returns only']),
     'C16': dict(run=run_C16, theorems=['HabuVerif.C16.' + t for t in [
